@@ -1,3 +1,4 @@
+import Agd.Tie.TrC07
 import Agd.Lemmas.Pools
 import Agd.Lemmas.PoolCtx
 import Agd.Tie.C07
@@ -665,6 +666,88 @@ example : ∀ h, ownsA h = true →
     rcases hop with rfl | rfl | rfl | rfl | rfl | rfl | rfl | rfl <;> simp_all [source, target, ownsA]
   · intro h _; rfl
 
+/-! ## Shared read-only messages: cache items, cached results, templates
+
+A message that many requests read at the same time (the message of an item of the ECS cache or of the
+simple cache, a cached filtering result, a template of a constructor) is in the footprint of every one of
+them.  `interleaving_irrelevant` then says something about a request alone only if the shared message is
+the target of no operation at all: it is created once and afterwards only the *source* of clones. -/
+
+/-- shared_readonly_interleaving_irrelevant: `own` are the handles of one request, `S` the shared
+long-lived messages.  If no operation of the history targets a shared message (`ro`) and the request
+clones only its own or shared messages (`closed`), the request sees — on its own handles and on the
+shared ones — exactly what it sees when only its own operations run, whatever the other requests that
+read the same shared messages do in between. -/
+theorem shared_readonly_interleaving_irrelevant (own S : Nat → Bool) (xs : List Op) (s1 s2 : St)
+    (h1 : Inv s1) (h2 : Inv s2)
+    (d1 : Disc s1 xs) (d2 : Disc s2 (xs.filter (fun op => own (target op))))
+    (ro : ∀ op ∈ xs, S (target op) = false)
+    (closed : ∀ op ∈ xs, own (target op) = true → ∀ a, source op = some a → own a = true ∨ S a = true)
+    (hv : ∀ h, (own h = true ∨ S h = true) → view s1 h = view s2 h) :
+    ∀ h, (own h = true ∨ S h = true) →
+      view (run s1 xs) h = view (run s2 (xs.filter (fun op => own (target op)))) h := by
+  have hf : xs.filter (fun op => (own (target op) || S (target op))) = xs.filter (fun op => own (target op)) := by
+    apply List.filter_congr
+    intro op hop
+    simp [ro op hop]
+  have key := interleaving_irrelevant (fun h => own h || S h) xs s1 s2 h1 h2 d1 (by rw [hf]; exact d2)
+    (by
+      intro op hop hp a ha
+      have ht : own (target op) = true := by simpa [ro op hop] using hp
+      rcases closed op hop ht a ha with h | h <;> simp [h])
+    (by
+      intro h hh
+      apply hv
+      simpa [Bool.or_eq_true] using hh)
+  intro h hh
+  have := key h (by simpa [Bool.or_eq_true] using hh)
+  rw [hf] at this
+  exact this
+
+/-- Non-vacuity: handle 0 is a cache item; request A clones it into 1 and sets the echoed cells of its
+clone, request B clones it into 2, sets its own and releases the clone, all interleaved. -/
+def cacheItem : List Spec := [⟨1, 0, 2, [7, 7]⟩, ⟨1, 2, 4, [1, 2, 3, 4]⟩]
+theorem specsOk_cacheItem : SpecsOk 6 cacheItem := specsOk_of _ _ (by decide) (by decide) (by decide)
+def cacheSt : St := newMsg St.init 0 6 cacheItem
+theorem cache_inv : Inv cacheSt := inv_step St.init (.new 0 6 cacheItem) inv_init ⟨by decide, specsOk_cacheItem⟩
+def hitMix : List Op :=
+  [.clone 0 1, .clone 0 2, .poke 2 0 0 22, .poke 1 0 0 11, .dispose 2, .poke 1 0 1 12]
+def hitOwnA (h : Nat) : Bool := h == 1
+def hitShared (h : Nat) : Bool := h == 0
+
+example : ∀ h, (hitOwnA h = true ∨ hitShared h = true) →
+    view (run cacheSt hitMix) h = view (run cacheSt (hitMix.filter (fun op => hitOwnA (target op)))) h := by
+  apply shared_readonly_interleaving_irrelevant hitOwnA hitShared hitMix cacheSt cacheSt cache_inv cache_inv
+  · simp only [hitMix, Disc, OpOk]
+    exact ⟨⟨by decide, by decide⟩, ⟨by decide, by decide⟩, trivial, trivial, trivial, trivial, trivial⟩
+  · have hf : hitMix.filter (fun op => hitOwnA (target op)) = [.clone 0 1, .poke 1 0 0 11, .poke 1 0 1 12] := by
+      simp [hitMix, hitOwnA, target, List.filter]
+    rw [hf]
+    simp only [Disc, OpOk]
+    exact ⟨⟨by decide, by decide⟩, trivial, trivial, trivial⟩
+  · intro op hop
+    simp only [hitMix, List.mem_cons, List.not_mem_nil, or_false] at hop
+    rcases hop with rfl | rfl | rfl | rfl | rfl | rfl <;> simp [target, hitShared]
+  · intro op hop hp a ha
+    simp only [hitMix, List.mem_cons, List.not_mem_nil, or_false] at hop
+    rcases hop with rfl | rfl | rfl | rfl | rfl | rfl <;> simp_all [source, target, hitOwnA, hitShared]
+  · intro h _; rfl
+
+example : view (run cacheSt hitMix) 1 = some [(1, [11, 12]), (1, [1, 2, 3, 4])] ∧
+    view (run cacheSt hitMix) 0 = view cacheSt 0 := by decide
+
+/-- A cache hit that writes the data of its request into the shared item and clones it afterwards (the
+reply set with `SetRcode` on `item.msg` before `Clone`): alone, request A gets its own ID; with request
+B doing the same between A's write and A's clone, A gets B's.  Every operation is allowed by the
+ownership discipline (`Disc`): what the history breaks is `ro`, the hypothesis of
+`shared_readonly_interleaving_irrelevant`. -/
+theorem shared_write_then_clone_counterexample :
+    let mixed : List Op := [.poke 0 0 0 11, .poke 0 0 0 22, .clone 0 1, .clone 0 2]
+    let aloneA : List Op := [.poke 0 0 0 11, .clone 0 1]
+    view (run cacheSt aloneA) 1 = some [(1, [11, 7]), (1, [1, 2, 3, 4])] ∧
+    view (run cacheSt mixed) 1 = some [(1, [22, 7]), (1, [1, 2, 3, 4])] ∧
+    view (run cacheSt mixed) 1 ≠ view (run cacheSt aloneA) 1 := by decide
+
 /-- The `dns.Copy` fall-back of the unchanged tree (`cloneOld`: the copy of a subnet option keeps the
 original's address): W = OPT + subnet + unknown option is cloned, the clone is released, and the clone of
 an unrelated message X then overwrites W's subnet, although nothing targeted W. -/
@@ -715,6 +798,10 @@ example :
 #print axioms demo_disc3
 #print axioms grow_isolated
 #print axioms no_cap_alias
+#print axioms shared_readonly_interleaving_irrelevant
+#print axioms specsOk_cacheItem
+#print axioms cache_inv
+#print axioms shared_write_then_clone_counterexample
 
 end Agd.Pools
 
@@ -884,3 +971,7 @@ example :
 #print axioms context_double_put_counterexample
 
 end Agd.PoolCtx
+#print axioms Agd.Tie.TrC07.translation_complete
+#print axioms Agd.Tie.TrC07.filtering_context_reset
+#print axioms Agd.Tie.TrC07.request_info_reset
+#print axioms Agd.Tie.TrC07.request_info_messages
